@@ -45,21 +45,23 @@ def _params(c):
   return ", ".join(out)
 
 
-def call_header(c):
-  """-> (definition lines, callee expression)"""
+def call_header(c, tag=""):
+  """-> (definition lines, callee expression); tag makes the names of one callable of a group unique"""
   kind, ps = c["kind"], _params(c)
+  f, cls, obj, v = "f" + tag, "C" + tag, "o" + tag, "v" + tag
   if kind == "value":
-    return VALUES[c["val"]].split("\n"), "v"
+    return VALUES[c["val"]].replace("v = ", v + " = ").split("\n"), v
   if kind == "def":
-    return ["def f(%s):" % ps, "  return None"], "f"
+    return ["def %s(%s):" % (f, ps), "  return None"], f
   if kind == "lambda":
-    return ["f = lambda %s: None" % ps if ps else "f = lambda: None"], "f"
+    return ["%s = lambda %s: None" % (f, ps) if ps else "%s = lambda: None" % f], f
   if kind == "ctor":
-    return ["class C:", "  def __init__(%s):" % ps, "    return None"], "C"
+    return ["class %s:" % cls, "  def __init__(%s):" % ps, "    return None"], cls
   deco = {"method": None, "method-cls": None, "static": "@staticmethod", "static-cls": "@staticmethod",
           "classm": "@classmethod", "classm-cls": "@classmethod"}[kind]
-  lines = ["class C:"] + (["  " + deco] if deco else []) + ["  def m(%s):" % ps, "    return None", "o = C()"]
-  return lines, ("C.m" if kind.endswith("-cls") else "o.m")
+  lines = ["class %s:" % cls] + (["  " + deco] if deco else []) + ["  def m(%s):" % ps, "    return None",
+                                                                    "%s = %s()" % (obj, cls)]
+  return lines, ("%s.m" % cls if kind.endswith("-cls") else "%s.m" % obj)
 
 
 def call_expr(c, callee, call):
@@ -74,22 +76,32 @@ def sort_calls(calls):
   return sorted(calls, key=lambda x: (x["npos"], sorted(x["kws"])))
 
 
+def sort_group(group):
+  return sorted(group, key=lambda g: (g["c"]["kind"], g["c"]["val"]))
+
+
 def render_call(plan, only=None):
-  """plan = exported PlanCall plan.  -> (src, calls) with calls = [{npos, kws, line, expr, faults,
-  tfault}] in a fixed order, one call per line after the definition; only = index of the single
-  call to keep (used to take a crashing text apart)."""
-  c = plan["c"]
-  head, callee = call_header(c)
-  calls = sort_calls(plan["calls"])
-  if only is not None:
-    calls = [calls[only]]
-  lines = list(head)
+  """plan = exported PlanCall plan (a group of callables with one parameter list and flag set).
+  -> (src, group) with group = [{c, calls: [{npos, kws, line, expr, faults, tfault}]}] in a fixed
+  order: for each callable its definition, then one call per line.  only = (callable index,) or
+  (callable index, call index): the part of the text to keep (used to take a crashing text apart)."""
+  lines = []
   out = []
-  for call in calls:
-    expr = call_expr(c, callee, call)
-    lines.append(expr)
-    out.append({"npos": call["npos"], "kws": sorted(call["kws"]), "line": len(lines), "expr": expr,
-                "faults": sorted(call["faults"]), "tfault": bool(call["tfault"])})
+  for gi, g in enumerate(sort_group(plan["group"])):
+    if only is not None and gi != only[0]:
+      continue
+    c = g["c"]
+    head, callee = call_header(c, str(gi))
+    lines += head
+    calls = []
+    for ci, call in enumerate(sort_calls(g["calls"])):
+      if only is not None and len(only) > 1 and ci != only[1]:
+        continue
+      expr = call_expr(c, callee, call)
+      lines.append(expr)
+      calls.append({"npos": call["npos"], "kws": sorted(call["kws"]), "line": len(lines), "expr": expr,
+                    "faults": sorted(call["faults"]), "tfault": bool(call["tfault"])})
+    out.append({"c": c, "gi": gi, "calls": calls})
   return "\n".join(lines) + "\n", out
 
 
@@ -103,16 +115,25 @@ _CPY_CLASS = [
 
 
 def cpython_call_outcomes(plan):
-  """Execute the rendered definition under CPython and evaluate every call: -> list of
-  (expr, predicted fault classes, class CPython raised or "" when the call returned)."""
-  src, calls = render_call(plan)
-  head = "\n".join(src.split("\n")[:calls[0]["line"] - 1]) + "\n"
+  """Execute the rendered text under CPython statement by statement: the definitions are executed,
+  every call is evaluated.  -> list of (expr, predicted fault classes, class CPython raised or ""
+  when the call returned)."""
+  src, group = render_call(plan)
+  lines = src.split("\n")
+  call_at = {c["line"]: c for g in group for c in g["calls"]}
   ns = {}
+  out = []
   with warnings.catch_warnings():
     warnings.simplefilter("ignore")
-    exec(compile(head, "<callfam>", "exec"), ns)  # pylint: disable=exec-used
-    out = []
-    for call in calls:
+    block = []
+    for ln, text in enumerate(lines, 1):
+      if ln not in call_at:
+        block.append(text)
+        continue
+      if block:
+        exec(compile("\n".join(block) + "\n", "<callfam>", "exec"), ns)  # pylint: disable=exec-used
+        block = []
+      call = call_at[ln]
       got = ""
       try:
         eval(compile(call["expr"], "<callfam>", "eval"), ns)  # pylint: disable=eval-used
